@@ -1,7 +1,8 @@
 (* C15 - the property theorems, nothing else.  Each is closed by [exact] of a lemma proved in Dsl/DslProofs.v.
    dsl_eval L g : L = per-loop iteration budget, g = remaining depth budget (300 - ScriptFrame::Depth). *)
 From Coq Require Import ZArith List String Bool.
-From Icv Require Import Dsl.DslDefs Dsl.DslOps Dsl.DslEval Dsl.DslProofs Dsl.DslMono.
+From Icv Require Import Dsl.DslDefs Dsl.DslOps Dsl.DslEval Dsl.DslProofs Dsl.DslMono Dsl.DslAcyclic Dsl.DslAcyclicEval Dsl.DslPrec.
+From Icv Require Import Facts.Facts_c15.
 Import ListNotations.
 Local Open Scope string_scope.
 
@@ -17,6 +18,37 @@ Theorem C15_fuel_monotone : forall L1 L2 g fr st e, (L1 <= L2)%nat ->
   fst (dsl_eval L1 g fr st e) <> DrAbort DaFuel -> dsl_eval L2 g fr st e = dsl_eval L1 g fr st e.
 Proof. exact dsl_fuel_monotone. Qed.
 Print Assumptions C15_fuel_monotone.
+
+(* loop-free evaluations never exhaust the loop budget.  With budget 0 every loop construct (while, for over an array,
+   Array#map/filter/any/all, Array#reduce on a non-empty array) stops with DaFuel when it is ENTERED, so evaluation with L = 0
+   detects loops; an evaluation that enters none yields the same result and store under every budget and never ends in
+   DaFuel: fuel exhaustion is only the property's own exclusion (non-terminating / over-long loops). *)
+Theorem C15_loops_need_budget :
+  (forall ev fr st c b, dsl_while ev 0 fr st c b = (DrAbort DaFuel, st)) /\
+  (forall ev fr st k l i b, dsl_for_arr ev 0 fr st k l i b = (DrAbort DaFuel, st)) /\
+  (forall ev mode f l i st acc, dsl_iter ev mode f l 0 i st acc = (DrAbort DaFuel, st, acc, false)) /\
+  (forall ev f l i acc st, dsl_reduce ev 0 f l i acc st = (DrAbort DaFuel, st)).
+Proof. exact dsl_loops_need_budget. Qed.
+Print Assumptions C15_loops_need_budget.
+
+Theorem C15_loopfree_no_fuel : forall g fr st e,
+  fst (dsl_eval 0 g fr st e) <> DrAbort DaFuel ->
+  forall L, dsl_eval L g fr st e = dsl_eval 0 g fr st e /\ fst (dsl_eval L g fr st e) <> DrAbort DaFuel.
+Proof. exact dsl_loopfree_no_fuel. Qed.
+Print Assumptions C15_loopfree_no_fuel.
+
+(* acyclic store => no DaCycle: for every program, frame, store and both budgets, an evaluation that ends in the abort
+   DaCycle (the model's rendering of the recorded finding cyclic-traversal) ends with a store in which some container is
+   reachable from itself; so if no container of the result store is reachable from itself, no structural traversal aborted *)
+Theorem C15_cycle_abort_needs_cycle : forall L g fr st e,
+  fst (dsl_eval L g fr st e) = DrAbort DaCycle -> exists v, dsl_cyclic (snd (dsl_eval L g fr st e)) v = true.
+Proof. exact dsl_eval_cyc. Qed.
+Print Assumptions C15_cycle_abort_needs_cycle.
+
+Theorem C15_acyclic_no_cycle_abort : forall L g fr st e,
+  (forall v, dsl_cyclic (snd (dsl_eval L g fr st e)) v = false) -> fst (dsl_eval L g fr st e) <> DrAbort DaCycle.
+Proof. exact dsl_acyclic_no_cycle_abort. Qed.
+Print Assumptions C15_acyclic_no_cycle_abort.
 
 (* false && e, true || e, untaken branches: e is not evaluated, for every e including diverging/crashing ones *)
 Theorem C15_short_circuit :
@@ -90,6 +122,44 @@ Theorem C15_cyclic_traversal_refuted :
 Proof. exact dsl_cyclic_refuted. Qed.
 Print Assumptions C15_cyclic_traversal_refuted.
 
+(* operator precedence: the grammar's %left/%right/%nonassoc declarations (config_parser.yy), the documented operator table
+   (doc/17-language-reference.md) and the table of the generator's minimal-parenthesis printer - all regenerated into
+   Facts_c15.v on every run - agree on every binary operator of the grammar: documented level = printer level, %nonassoc exactly
+   on the printer's non-associative levels and %left elsewhere; for every pair of operators "binds tighter in the
+   documentation" <-> "declared later in the grammar", equal level <-> same declaration line.  (That bison resolves all
+   conflicts of these operators by the declarations alone is compared by the differential run, not proved.) *)
+Theorem C15_precedence_tables_agree :
+  (forall op, In op dsl_binops ->
+     exists i a d, dsl_yacc op = Some (i, a) /\ dsl_doc_bin op = Some d /\ dsl_printer_lv op = Some d /\
+                   (a = 2%Z <-> In d f_c15_printer_nonassoc) /\ (a = 0%Z \/ a = 2%Z)) /\
+  (forall o1 o2, In o1 dsl_binops -> In o2 dsl_binops ->
+     forall i1 a1 i2 a2 d1 d2, dsl_yacc o1 = Some (i1, a1) -> dsl_yacc o2 = Some (i2, a2) -> dsl_doc_bin o1 = Some d1 -> dsl_doc_bin o2 = Some d2 ->
+     ((d1 < d2)%Z <-> (i2 < i1)%nat) /\ (d1 = d2 <-> i1 = i2)).
+Proof. exact dsl_prec_tables_agree. Qed.
+Print Assumptions C15_precedence_tables_agree.
+
+(* ... including: 20 binary operators; the prefix operators (logical and bitwise negation, unary minus and plus, reference and
+   dereference) bind tighter than every binary operator and looser than the postfix member access, call and index operators;
+   the ternary operator binds looser than every binary operator and is right associative *)
+Theorem C15_precedence_consistent : dsl_prec_consistent = true.
+Proof. exact dsl_prec_consistent_true. Qed.
+Print Assumptions C15_precedence_consistent.
+
+(* the two findings of the widened language that the model can express: a `using` import that evaluates to null reached by a
+   lookup (the code dereferences a null pointer), intersection() padding its own running result (wrong values); the model stops
+   there with an explicit abort, the neighbours are followed *)
+Theorem C15_null_import_refuted :
+  fst (dsl_run 400 dsl_prog_null_import) = DrAbort DaNullImport /\
+  dsl_observe (dsl_run 400 dsl_prog_null_import_unreached) = ["4"; "{}"; "{""a"":4}"; "{}"].
+Proof. exact dsl_null_import_refuted. Qed.
+Print Assumptions C15_null_import_refuted.
+
+Theorem C15_intersection_alias_refuted :
+  fst (dsl_run 400 dsl_prog_isect_alias) = DrAbort DaIsectAlias /\
+  dsl_observe (dsl_run 400 dsl_prog_isect_ok) = ["[2,3]"; "{}"; "{}"; "{}"].
+Proof. exact dsl_isect_alias_refuted. Qed.
+Print Assumptions C15_intersection_alias_refuted.
+
 (* the three operators/methods fixed in /repo (9eeddcb array - null, 150ea79 %, 2c1ef52 Array#map/filter/any/all):
    the model follows the fixed code; the former crash witnesses are ordinary programs now *)
 Theorem C15_fixed_operators :
@@ -127,4 +197,27 @@ Example C15_nonvacuous :
      DeAnd (DeLit (DvBool false)) (DeCall (DeVar "nosuchfunction") [])] in
   dsl_is_abort (dsl_run 400 prog) = false /\
   dsl_observe (dsl_run 400 prog) = ["false"; "{}"; "{""a"":[1,2,7],""f"":fn,""i"":7}"; "{}"].
+Proof. vm_compute. split; reflexivity. Qed.
+
+(* non-vacuity of the two new closure theorems: a loop-free program with closures, references, a namespace, typeof, union and
+   Json that enters no loop (budget 0 suffices); a program whose result store is acyclic although it builds shared structure *)
+Example C15_nonvacuous_loopfree :
+  let prog := DeDict true
+    [dsl_var "a" (dsl_n 3);
+     dsl_var "p" (DeRef (DeVar "a"));
+     DeSet DsAdd (DeDeref (DeVar "p")) (dsl_n 4);
+     DeSet DsSet (DeIndex DeGlobals (dsl_s "Nx")) (DeNsDef (DeDict true [DeSet DsSet (DeVar "ka") (DeVar "len")]));
+     DeArray [DeVar "a"; DeBin DbEq (DeCall (DeVar "typeof") [DeVar "a"]) (DeVar "Number");
+              DeCall (DeVar "union") [DeArray [dsl_n 2; dsl_n 1]; DeArray [dsl_n 1]];
+              dsl_method (DeVar "Json") "encode" [DeArray [DeVar "a"; dsl_s "x"]]]] in
+  fst (dsl_run 0 prog) <> DrAbort DaFuel /\
+  dsl_observe (dsl_run 0 prog) = ["[7,true,[1,2],""[7,\x22x\x22]""]"; "{}"; "{""a"":7,""p"":obj}"; "{""Nx"":ns}"].
+Proof. vm_compute. split; [discriminate | reflexivity]. Qed.
+
+Example C15_nonvacuous_acyclic :
+  let prog := DeDict true
+    [dsl_var "a" (DeArray [dsl_n 1]); dsl_var "b" (DeArray [DeVar "a"; DeVar "a"]);
+     DeBin DbEq (DeVar "b") (DeArray [DeArray [dsl_n 1]; DeVar "a"])] in
+  dsl_observe (dsl_run 400 prog) = ["true"; "{}"; "{""a"":[1],""b"":[[1],[1]]}"; "{}"] /\
+  forallb (fun l => negb (dsl_cyclic (snd (dsl_run 400 prog)) (DvArr l)) && negb (dsl_cyclic (snd (dsl_run 400 prog)) (DvDict l))) (seq 0 12) = true.
 Proof. vm_compute. split; reflexivity. Qed.
